@@ -257,3 +257,34 @@ Definition negotiated (c : codec) (f : N) : bool :=
   match fam_state (fams c) f with Some _ => true | None => false end.
 Definition msg_type (m : msg) : N :=
   match m with MOpen _ _ _ _ => 1 | MReach _ _ _ _ | MUnreach _ _ | MEor _ => 2 | MNotif _ _ _ => 3 | MKeepalive => 4 | MRefresh _ => 5 end.
+
+(* ---- labeled-unicast and VPN entries (RFC 8277, RFC 4364) as the peer must read them *)
+Definition labeled (vpn : bool) (maxbits : N) (e : pnlri) : Prop :=
+  fst e < 4294967296 /\
+  match snd e with
+  | NLab4 ls m a | NLab6 ls m a =>
+      vpn = false /\ ls <> [] /\ Forall (fun v => v < 1048576) ls /\
+      m <= maxbits /\ 24 * blen ls + m < 256 /\ (m + 7) / 8 <= blen a
+  | NVpn4 ls rd m a | NVpn6 ls rd m a =>
+      vpn = true /\ ls <> [] /\ Forall (fun v => v < 1048576) ls /\ blen rd = 8 /\
+      m <= maxbits /\ 24 * blen ls + 64 + m < 256 /\ (m + 7) / 8 <= blen a
+  | _ => False
+  end.
+
+Definition canon_lprefix (ap : bool) (e : pnlri) : lprefix :=
+  match snd e with
+  | NLab4 ls m a | NLab6 ls m a =>
+      {| lp_pid := if ap then fst e else 0; lp_labels := ls; lp_rd := []; lp_mask := m; lp_octets := sig_octets m a |}
+  | NVpn4 ls rd m a | NVpn6 ls rd m a =>
+      {| lp_pid := if ap then fst e else 0; lp_labels := ls; lp_rd := rd; lp_mask := m; lp_octets := sig_octets m a |}
+  | _ => {| lp_pid := 0; lp_labels := []; lp_rd := []; lp_mask := 0; lp_octets := [] |}
+  end.
+
+Definition reach_frame_labeled_ok (c : codec) (f : N) (vpn : bool) (nh : option (list N)) (ws : list attr)
+           (nonempty : Prop) (fr : list N) (chunk : list pnlri) : Prop :=
+  exists v,
+    read_reach (max_len c) (legacy c f) fr = Some v /\
+    rv_family v = f /\ rv_attrs v = map attr_tlv ws /\
+    (forall b, nonempty -> nh = Some b -> nh_representable c f b -> rv_nexthop v = expected_nh c f b) /\
+    read_lprefixes (length (rv_nlri v)) (addpath_for c f) vpn (maxbits_of f) (rv_nlri v)
+      = Some (map (canon_lprefix (addpath_for c f)) chunk).
